@@ -468,7 +468,7 @@ def single_def(defs, l):
     return ds[0] if len(ds) == 1 else None
 
 
-def origin_fields(fn, local, defs=None, depth=12):
+def origin_fields(fn, local, defs=None, depth=12, stop_at=()):
     """Follow single-def chains (use / ref / deref-like calls on arg0) from `local`
     back to the place it was borrowed from; returns the list of field names on that
     chain, outermost first (e.g. ['RaftNode.persistent']), plus the root local."""
@@ -476,6 +476,8 @@ def origin_fields(fn, local, defs=None, depth=12):
     fields = []
     l = local
     for _ in range(depth):
+        if l in stop_at:
+            break
         d = single_def(defs, l)
         if d is None:
             break
@@ -523,7 +525,7 @@ def guard_kind(ty):
 
 
 class Guard:
-    __slots__ = ('local', 'ty', 'acq', 'lock_fields', 'root', 'kills')
+    __slots__ = ('local', 'ty', 'acq', 'acq_calls', 'lock_fields', 'root', 'kills')
 
     def __repr__(self):
         return 'Guard(_%d %s lock=%s acq=%s)' % (self.local, guard_kind(self.ty), self.lock_fields, self.acq)
@@ -539,10 +541,12 @@ def guards(fn, defs=None):
         g = Guard()
         g.local, g.ty = l, ty
         g.acq = []
+        g.acq_calls = []
         g.lock_fields, g.root = [], None
         for (bb, idx, k, p) in defs.defs.get(l, []):
             if k == 'call':
                 g.acq.append((bb, idx))
+                g.acq_calls.append((bb, idx))
                 a = p.arg_local(0)
                 if a is not None and not g.lock_fields:
                     fs, root = origin_fields(fn, a, defs)
